@@ -222,6 +222,7 @@ def _implicit_raise(fv, node):
 
 
 def c17a(tree, ob):
+    _stop_after_close(tree, ob)
     roots = _roots(tree)
     ob.require(len(roots) >= 6, 'expected at least six event-loop callbacks in session.py, found {}'.format(sorted(roots)))
     esc = Escapes(tree)
@@ -255,6 +256,30 @@ def c17a(tree, ob):
                         continue
                 ob.violate(SESS, fq, construct, '{} can propagate out of the event-loop callback {} (the endpoint stops processing instead of answering with MSG_REJECT / SESS_TERM / close)'.format(base, qual),
                            node, [' -> '.join(chain)])
+
+
+def _stop_after_close(tree, ob):
+    ''' A handler may close the connection (bad contact header, TLS policy, failed handshake).  The receive loop must not go
+    on dispatching the rest of the read on the closed connection (merge_session_params then dereferences a socket that
+    is gone: AttributeError out of the callback). '''
+    fr = FuncView(tree, SESS, 'Messenger.recv_raw')
+    loop = one([n for n in walk_local(fr.func) if isinstance(n, ast.While)], 'message loop in recv_raw', ob)
+    act = one(method_calls(fr.func, 'recv_message', 'self'), 'dispatch in recv_raw', ob)
+    head = fr.node(loop)
+    gates = [n for n in fr.cfg.nodes if n.kind == 'cond' and any('get_app_socket()' in t or 'is_closed' in t for (t, p) in norm.all_atoms(n.ast))]
+    ok = bool(gates) and fr.cfg.must_pass(fr.node(act), head, set(gates), include_exc=False)[0]
+    if ok:
+        # on the "closed" edge the loop head is not reached again
+        for g in gates:
+            for (succ, lab) in g.succ:
+                closed_edge = (lab is True) == any(p is True for (t, p) in norm.cond_facts(g.ast, True) if 'get_app_socket() is None' in t)
+                if closed_edge and head in fr.cfg.reachable([succ]) and succ is not head:
+                    ok = False
+    if ok:
+        ob.site(SESS, act, 'recv_raw stops dispatching once a handler closed the connection')
+    else:
+        ob.violate(SESS, fr.qual, 'self.recv_message(pkt) ... next iteration without a closed-connection test', 'after a handler closed the connection (bad magic / version, TLS policy, failed handshake) the '
+                   'rest of the read is still decoded and dispatched; merge_session_params then raises AttributeError out of the receive callback', act)
 
 
 # ---------------------------------------------------------------- C17.f
@@ -299,6 +324,26 @@ def c17f(tree, ob):
         else:
             ob.violate(MSGS, fv.qual, src(r.exc)[:70], 'a message of unknown type is reported as partial: it is never passed to the dispatcher, no MSG_REJECT is sent and every later '
                        'message is stuck behind its octets', r)
+    # an unknown type is passed on as its header octet alone: scapy hands it everything else in the buffer as a Raw
+    # payload, and those octets (the next messages, if TCP delivered them together) would be consumed with it
+    strips = {fv.node(c) for c in method_calls(fv.func, 'remove_payload', 'self')}
+    found = False
+    for n in fv.cfg.nodes:
+        if n.kind != 'cond' or not isinstance(n.ast, ast.Compare) or len(n.ast.ops) != 1 or not isinstance(n.ast.ops[0], (ast.Is, ast.Eq, ast.IsNot, ast.NotEq)):
+            continue
+        (a, b) = (n.ast.left, n.ast.comparators[0])
+        if not ((is_guess(a, n.ast) and is_default(b, n.ast)) or (is_guess(b, n.ast) and is_default(a, n.ast))):
+            continue
+        found = True
+        same = isinstance(n.ast.ops[0], (ast.Is, ast.Eq))
+        for (succ, lab) in n.succ:
+            if lab is same:   # the "unknown type" edge
+                ok = succ in strips or (strips and fv.cfg.must_pass(succ, fv.cfg.exit, strips, include_exc=False)[0])
+                if ok:
+                    ob.site(MSGS, n.ast, 'an unknown type keeps no payload: only its header octet is consumed')
+                else:
+                    ob.violate(MSGS, fv.qual, 'unknown type passed on with its Raw payload', 'whatever was read together with a message of unknown type is consumed with it: whether a following message is acted '
+                               'on depends on how TCP split the stream', n.ast)
     # and the dispatcher classifies by the bound class, so that an unknown type falls into its default arm
     fd = FuncView(tree, SESS, 'Messenger.recv_message')
     defs = norm.local_assigns(fd.func, 'msgcls')
@@ -329,6 +374,14 @@ def c17b(tree, ob):
             ob.site(SESS, fv.func, 'dispatch arm for ' + cls)
         else:
             ob.violate(SESS, fv.qual, 'msgcls == messages.' + cls, 'message type {} has no dispatch arm (it would be answered as unknown)'.format(cls), fv.func)
+    # the SESS_INIT arm needs a state guard like every other arm: one SESS_INIT per session
+    inits = [n for n in walk_local(fv.func) if isinstance(n, ast.Assign) and any(src(t) == 'self._sessinit_peer' for t in n.targets) and src(n.value) == 'pkt.payload']
+    for n in inits:
+        if fv.has(n, 'self._sessinit_peer is None', True) or fv.has(n, 'self._in_sess', False):
+            ob.site(SESS, n, 'SESS_INIT accepted once per session')
+        else:
+            ob.violate(SESS, fv.qual, 'msgcls == messages.SessionInit (no state guard)', 'a second SESS_INIT is accepted in any state: it is answered with another SESS_INIT, replaces the negotiated '
+                       'parameters (segment MRU 0 stalls the running transfer) and moves a terminating session back to established', n)
     # default arm: reached when every arm test is false
     raises = [n for n in walk_local(fv.func) if isinstance(n, ast.Raise) and n.exc is not None and 'RejectError' in src(n.exc)]
     default = [r for r in raises if all(((('msgcls == messages.' + c), False) in (fv.facts(r) or ())) or c in ('Keepalive', 'RejectMsg') for c in bound)]
@@ -494,6 +547,26 @@ def c17c(tree, ob):
 
 # ---------------------------------------------------------------- C17.d
 def c17d(tree, ob):
+    # a START must not replace a transfer being received, nor one waiting to be popped under the same id
+    fh = FuncView(tree, SESS, 'ContactHandler.recv_xfer_data')
+    for call in method_calls(fh.func, '_rx_setup', 'self'):
+        miss = [t for (t, p) in (('transfer_id in self._rx_map', False),) if not fh.has(call, t, p)]
+        # a reception in progress is either impossible here (_rx_tmp is None) or is ended with a finished signal that is
+        # not 'success' before the fresh setup: look for a path entry -> setup on which neither is established
+        emits = [fh.node(f) for f in method_calls(fh.func, 'recv_bundle_finished', 'self') if len(f.args) > 2 and const_str(f.args[2]) not in (None, 'success')]
+        cuts = set()
+        for n in fh.cfg.nodes:
+            if n.kind == 'cond':
+                for (succ, lab) in n.succ:
+                    if lab in (True, False) and ('self._rx_tmp is None', True) in set(norm.cond_facts(n.ast, lab)):
+                        cuts.add((n.idx, succ.idx, lab))
+        if fh.node(call) in fh.cfg.reachable([fh.cfg.entry], avoid=emits, avoid_edges=cuts, include_exc=False):
+            miss.append('self._rx_tmp is None (or an abandon signal)')
+        if miss:
+            ob.violate(SESS, fh.qual, src(call) + ' without ' + ' / '.join(miss), 'a START segment replaces the transfer in progress (announced as started, it never gets a finished signal) or overwrites the '
+                       'map entry of a finished transfer with the same id (two announcements, one poppable bundle)', call)
+        else:
+            ob.site(SESS, call, 'START accepted only with no transfer in progress and an unused id')
     fv = FuncView(tree, SESS, 'ContactHandler._rx_setup')
     cls = tree.klass(SESS, 'ContactHandler')
     news = [st for (f, st, _k, val) in stores_to_self_attr(cls, '_rx_tmp') if f is fv.func]
